@@ -142,7 +142,7 @@ CHECKS = {
         "so the three shipped tables change a quadratic invariant by at most 1e-14 h^2 sum|B(k_i,k_j)| per step (symplectic_rk_quadratic_invariants). "
         "Cited: that the symplectic two-form is such an invariant of the variational system, chain rule for the Jacobian of the composition, Lasagni/Sanz-Serna/"
         "Suris theorem, backward error analysis (no secular energy drift). Measured on the implementation: M^T J M = J by finite "
-        "differences, h then -h, long-run energy, for all 6 methods, 4 Hamiltonians, two variable orderings (kick masks).",
+        "differences, h then -h, long-run energy, for all 6 methods, 4 Hamiltonians, two variable orderings (kick masks). Energy clause: for the shipped kick-drift-kick table (regenerated SymplecticEulerSolver) on the harmonic oscillator the modified energy p^2 + (1 - h^2/4) q^2 is an exact invariant of the coded step (kdk_modified_energy_invariant, coded_symplectic_euler_step_is_kdk), hence after ANY number of steps the energy stays within [(1 - h^2/4) E0, E0 / (1 - h^2/4)] for |h| < 2 (kdk_energy_bounded_for_all_times: no secular drift, proved for this Hamiltonian); checked on the implementation over long runs.",
    note="Trusted: Lean kernel, standard axioms, translate.py, harness. The step model is tied to the code by C02's exact-rational "
         "correspondence incl. random kick masks.",
    technique="Lean 4 proof (Mathlib symplectic group; list induction for reversibility; verified computation on generated tables) + finite-difference measurements",
